@@ -3,7 +3,8 @@ from harness import common, sysimg, sysprops
 from harness.props import packleaf
 
 MODULE = 'C03'
-THEOREMS = ['C03_records_inside_blocks', 'C03_written_where_cached', 'C03_writer_test_is_decisive', 'C03_restart_sound', 'C03_dir_length_inv', 'C03_insert_le1', 'C03_remove_le0', 'C03_ptr_extents_inv', 'C03_nonvacuous']
+THEOREMS = ['C03_records_inside_blocks', 'C03_written_where_cached', 'C03_writer_test_is_decisive', 'C03_restart_sound', 'C03_dir_length_inv', 'C03_insert_le1', 'C03_remove_le0', 'C03_ptr_extents_inv', 'C03_nonvacuous',
+            'C03_recalculate_is_the_model', 'C03_recalculate_from_zero']
 RECIPES = ['exact_fill', 'exact_fill_root', 'exact_fill_minus', 'exact_fill_plus', 'ptable_boundary',
            'ptable_boundary_dup_late', 'big_records', 'deep_tree']
 
@@ -17,6 +18,7 @@ def run(ctx):
     common.proof_stage(ctx, MODULE, THEOREMS)
     common.setup_impl_path()
     packleaf.leaf_correspondence(ctx)
+    packleaf.translated_correspondence(ctx)
     quick = ctx.tier == 'quick'
     sysprops.run_oracle(ctx, 'C03', sysprops.histories(ctx, 150 if quick else 2500, RECIPES,
                                                        dict(allow_refusals=False, fat_dir=0.3, long_rr=0.08),
@@ -30,7 +32,7 @@ def run(ctx):
                        'non-trivial = at least 3 edit kinds or a recipe')
     ctx.cov['trusted_base'] = ['Coq 8.16.1 kernel, vm_compute', 'Model/Pack.v (hand model of dr.py packing and of the writer loop), tied by the '
                                'exhaustive small-block leaf run and by record positions decoded from real images',
-                               'translator (ceiling_div, add_to_ptr_size, remove_from_ptr_size)', 'harness/reader.py (independent decoder)']
+                               'translator (ceiling_div, add_to_ptr_size, remove_from_ptr_size, and _recalculate_extents_and_offsets with its children read/written attribute-wise as lists, validated against the real method from arbitrary restart indices)', 'harness/reader.py (independent decoder)']
     ctx.assumptions = ['logical block size 2048', 'record lengths <= half a block for the insertion/removal lemmas (dr_len <= 254)']
 
 
